@@ -1,4 +1,5 @@
 import ZbossModel.App
+import ZbossModel.Generated.Exprs
 /-! # C18 - packets and bind requests cross the radio boundary faithfully, both ways -/
 namespace Zboss.App
 open Gen Codec
@@ -139,5 +140,10 @@ theorem C18_bind (tsn tn : Nat) (src : Bytes) (sep cl : Nat) (d : BindDst) :
 /-! ## non-vacuity -/
 example : ∃ r, sendPacket ⟨15, 0xFFFD, [], some 1, none, 9, 260, 6, none, 3, [1, 2, 3]⟩ = .req r ∧ r.dstMode = 1 ∧
     r.txOptions = 5 ∧ r.dstAddr = [0xFD, 0xFF, 0, 0, 0, 0, 0, 0] := ⟨_, rfl, rfl, rfl, rfl⟩
+
+/-- **source tie (translator 4)**: the expression `get_sequence` assigns - translated from the Python ast on every
+    run - is the model's `nextSeq`, for every current value -/
+theorem C18_source_exprs (s : Nat) : Gen.nextSendSeqExpr s = ((nextSeq s : Nat) : Int) := by
+  unfold Gen.nextSendSeqExpr nextSeq; omega
 
 end Zboss.App
